@@ -37,7 +37,7 @@ func init() {
 
 func runC01(c *core.Ctx) {
 	pi := c.Index / argvPerProg
-	cfg := variantCfg(pi%4, c.Tier)
+	cfg := variantCfg(pi, c.Tier)
 	if c.Tier == "thorough" && pi%5 == 0 {
 		cfg.MaxRep = 12
 	}
